@@ -19,4 +19,14 @@ theorem scan_translated {N : Nat} (t : Quotient.St N) (q : Fin N) (r : Nat) (onI
       | none => Flow.panic
       | some sr => Flow.ret ⟨sr.present, sr.position.val, sr.startOfRun.map (·.val)⟩ := qf_scan_eq t q r onInsert
 
+/-- `QuotientFilter::insert_internal` as translated — the scan, the known / full exits, the three conditional
+metadata writes at the insert position, the swap chain `while current_used { … }` with its
+`panic!("infinite loop detected")`, `is_occupied.set(quotient, true)`, `n_elements += 1` — is the model's
+`insertInternal` (`Ok(false)` ↦ 0, `Ok(true)` ↦ 1, `Err(QuotientFilterFull)` ↦ 2), for every table size -/
+theorem insert_internal_translated {N : Nat} (t : Quotient.St N) (q : Fin N) (r : Nat) :
+    qf_insert_internal (occL t) (contL t) (shiftL t) (remL t) t.n q.val r =
+      match Quotient.insertInternal t q r with
+      | none => Flow.panic
+      | some (t', res) => Flow.ret (qfRes res, (occL t', contL t', shiftL t', remL t', t'.n)) := qf_insert_internal_eq t q r
+
 end Pds.Tie.C13
